@@ -77,6 +77,46 @@ def cross_file_trees():
     return out
 
 
+COMMENT_TEXTS = {
+    "plain": "A plain comment.",
+    "backslash-u": "Stored under C:\\users\\new by the official client.",
+    "escapes": "Escapes like \\N{DASH}, \\x41, \\d and \\0 appear verbatim.",
+    "triple-quote": 'The client shows """quoted""" text here.',
+    "quote-end": 'The value is "unknown"',
+    "backslash-end": "Ends with a backslash \\",
+    "markup": "Uses <b>markup</b> & entities like &amp; and 100% {braces}.",
+    "multiline": "First line.\nSecond line with a \\ and a \" quote.\n\nFourth line.",
+}
+
+
+def comment_trees():
+    """One tree per comment text; the text is attached to every element kind that can carry a <comment>."""
+    from .specs import N, dummy, length
+
+    out = []
+    for tag, text in COMMENT_TEXTS.items():
+        def c():
+            return N("comment", text=text)
+
+        e = enum("Mood", "char", [("Calm", 0), ("Angry", 1)])
+        e.kids.insert(0, c())
+        for v in e.kids[1:]:
+            v.kids.append(c())
+        body = [field("m", "Mood"), length("n", "char"), field("s", "string", length="n"), array("xs", "short", length="2")]
+        for ins in body:
+            ins.kids.append(c())
+        case1 = case("Calm", [field("why", "string")])
+        case1.kids.insert(0, c())
+        case1.kids[1].kids.append(c())
+        st = struct("Commented", body + [switch("m", [case1, case("Angry", [])])])
+        st.kids.insert(0, c())
+        pk = packet("Fam1", "Act", [field("c", "Commented"), dummy("char", "0")])
+        pk.kids.insert(0, c())
+        pk.kids[1].kids.append(c())
+        out.append((f"comment:{tag}", {"net": [e, st], "net/client": [pk], "pub": [struct("PubCommented", [field("v", "char")], comment=text)]}, 1))
+    return out
+
+
 def reference_matrix_trees():
     """One tree per ordered pair (user directory A, defining directory B), A != B: a struct in A has a field whose
     type is declared in B.  Every tree also has a packet in net/client and net/server, as real trees do."""
@@ -106,4 +146,5 @@ def all_trees(tier):
         trees.append((name, f, 4))
     trees.append(("minimal", {}, 1))
     trees += reference_matrix_trees()
+    trees += comment_trees()
     return trees
